@@ -976,7 +976,7 @@ fn ctxsel(r: &mut Rng, c: &GenCfg) -> usize {
 
 const FAMS: &[Fam] = &[
     Fam { name: "fields", cost: 60, gen: |r, _| Op::new(*r.pick(&["fq_ops", "fr_ops", "fq2_ops", "fq6_ops", "fq12_ops", "fields_lite"]), &[r.below(8), r.below(8)]) },
-    Fam { name: "misc", cost: 40, gen: |r, _| if r.chance(1, 2) { Op::new("misc", &[r.below(8), r.below(100_000)]) } else { Op::new("field_random", &[r.below(5), r.below(40)]) } },
+    Fam { name: "misc", cost: 40, gen: |r, _| match r.below(4) { 0 => Op::new("misc", &[r.below(8), r.below(100_000)]), 1 => Op::new("field_random", &[r.below(5), r.below(40)]), _ => Op::new("misc2", &[r.below(10), r.below(1000)]) } },
     Fam { name: "h2f", cost: 30, gen: |r, _| Op::new("h2f", &[r.below(4), r.below(2), r.below(6), r.below(6), r.below(3), r.below(2)]) },
     Fam { name: "arith", cost: 10, gen: |r, _| gop("arith", &[r.below(8), r.below(8)], r) },
     Fam { name: "mul", cost: 300, gen: |r, _| gop(["mul", "amul", "ymul"][r.below(3)], &[r.below(8), rk(r)], r) },
